@@ -17,6 +17,14 @@ oracle      generated trees (1..40 entries) x argument sets (plan, plan --dry-ru
                 with auto-init enabled the one-time `.gitignore` addition (exact text), never a second time;
             (b) deterministic: plan JSON without id / created_at (maps compared as maps) equal across all thread counts
                 and repeats of one (tree, arguments); `--preview table|diff|matches|summary` text equal likewise.
+            (c) confusable files: groups of 2..6 files >= 4 KiB with identical length, identical first / last 2 KiB and equal
+                mtime whose middles differ in dominant identifier style, plus a same-content-different-name copy,
+                same-name-different-directory members and a one-byte variant: every run across the thread counts must
+                equal the 1-thread run, and for every file the matches of the full plan must equal the plan of a tree
+                that holds only that file.  The second oracle is sound because in this family every ambiguous hit stands
+                at the start of a line: `ambiguity/cross_file_context.rs` (which legitimately looks at the other files
+                of the same extension, keyed by the word before the hit) never contributes, so a hunk is a function of
+                its own file, the terms and the options.  It is not applied to the general trees of (b).
 correspond  the abstract trace of each command vs the effect list of the Lean program (`c14prog`).
 """
 import concurrent.futures
@@ -188,6 +196,152 @@ def preview_case(tree, args, formats, thread_counts, repeats):
     return out, same
 
 
+# ------------------------------------------------------------------------------------------------
+# confusable files: anything a content-, length-, name- or mtime-keyed cache could mix up
+
+CONF_STYLES = ["snake", "camel", "pascal", "kebab"]
+CONF_MTIME = 1_700_000_000
+
+
+def _conf_middle(rng, style, S, words, n_lines):
+    """a body whose dominant identifier style is `style` (>= 2 unambiguous identifiers per line), with hits of the
+    single-word term S: ambiguous ones at the START of a line (no preceding word, so ambiguity/cross_file_context.rs
+    cannot contribute: the choice depends on this file alone) and unambiguous compound ones in the file's style"""
+    w = words
+    lines = []
+    for k in range(n_lines):
+        a = gen.render(style, [w[0], w[1] + f"{k:02d}", w[2]])
+        b = gen.render(style, [w[3], w[4] + f"{k:02d}", w[5]])
+        lines.append(f"let {a} = {b};")
+        if k % 16 == 5:
+            lines.append(f"{S} = {k};")                                   # ambiguous: lower-case single word
+        if k % 16 == 9:
+            lines.append(f"{S.capitalize()}({k})")                        # ambiguous: capitalised single word
+        if k % 16 == 13:
+            lines.append(f"call {gen.render(style, ['my', S, 'handler'])}({k});")   # unambiguous compound hit
+    return "\n".join(lines) + "\n"
+
+
+def confusable_tree(rng, S):
+    """returns (tree, groups): groups of 2..6 files >= 4 KiB with identical length and identical first / last 2 KiB whose
+    middles differ in dominant style; plus a same-content-different-name copy, same-name-different-directory members and
+    a one-byte variant"""
+    tree, groups = {}, []
+    dirs = ["frontend", "backend", "shared", "tools", "vendor", "legacy"]
+    filler = [x for x in gen.VOCAB + gen.FILLER if x != S and len(x) > 2]
+    for gi in range(rng.randint(1, 2)):
+        n = rng.randint(2, 6)
+        header = "".join(f"// Module {gi:03d} - generated stub, line {i:02d}: do not edit by hand, see the generator notes\n"
+                         for i in range(28))
+        trailer = f"{S} is configured above\n" + "".join(
+            f"// end of module {gi:03d}, trailer line {i:02d}: keep this block in sync with the shared template\n" for i in range(28))
+        assert len(header) >= 2048 and len(trailer) >= 2048
+        styles = [CONF_STYLES[(gi + i) % 4] for i in range(n)]
+        rng.shuffle(styles)
+        words = rng.sample(filler, 6)
+        middles = [_conf_middle(rng, st, S, words, 64) for st in styles]
+        width = max(len(m) for m in middles) + 8
+        members = []
+        same_name = rng.random() < 0.6
+        for i, (st, m) in enumerate(zip(styles, middles)):
+            pad = width - len(m)
+            body = header + m + "//" + "." * (pad - 3) + "\n" + trailer
+            name = (f"{dirs[i]}/mod_{gi:03d}.txt" if same_name else f"gen{gi}/part_{i}_{st}.txt")
+            tree[os.path.dirname(name)] = ("d", 0o755)
+            tree[name] = ("f", body.encode(), 0o644)
+            members.append(name)
+        lens = {len(tree[m][1]) for m in members}
+        assert len(lens) == 1 and min(lens) >= 4096
+        # the same content under another name
+        src = rng.choice(members)
+        tree[f"copies{gi}"] = ("d", 0o755)
+        tree[f"copies{gi}/same_content_{gi}.txt"] = tree[src]
+        members.append(f"copies{gi}/same_content_{gi}.txt")
+        # one byte different (same length, same head and tail): a digit inside an identifier of the middle
+        b = bytearray(tree[members[0]][1])
+        pos = b.index(b"00", 2100)
+        b[pos + 1] = ord("7")
+        tree[f"copies{gi}/one_byte_{gi}.txt"] = ("f", bytes(b), 0o644)
+        members.append(f"copies{gi}/one_byte_{gi}.txt")
+        groups.append({"members": members, "styles": styles, "length": min(lens)})
+    # a small file that must not be confused with anything
+    tree["notes.txt"] = ("f", f"{S} notes\nsee my_{S}_handler\n".encode(), 0o644)
+    return tree, groups
+
+
+def _rel_matches(out, root):
+    """the plan's matches with root-relative file names, every field kept"""
+    plan = out.get("plan", out)
+    res = []
+    for m in plan.get("matches", []):
+        m = dict(m)
+        m["file"] = os.path.relpath(m["file"], root) if os.path.isabs(m["file"]) else os.path.normpath(m["file"])
+        res.append(m)
+    return res, [[os.path.relpath(r["path"], root) if os.path.isabs(r["path"]) else r["path"],
+                  (os.path.relpath(r["new_path"], root) if os.path.isabs(r.get("new_path", "") or "") else r.get("new_path", ""))]
+                 for r in plan.get("paths", [])], plan.get("stats", {})
+
+
+def _plan_once(d, args, threads):
+    rc, so, se = common.cli(args + ["--output", "json", "--no-auto-init"], d, env={"RAYON_NUM_THREADS": str(threads)})
+    if rc != 0:
+        return None, {"rc": rc, "stderr": se.decode("utf-8", "replace")[-300:]}
+    try:
+        return _rel_matches(json.loads(so), d), None
+    except ValueError:
+        return None, {"rc": rc, "stdout": so[:200].decode("utf-8", "replace")}
+
+
+def _materialize_same_mtime(d, tree):
+    common.materialize(d, tree)
+    for dp, dn, fn in os.walk(d):
+        for f in fn:
+            os.utime(os.path.join(dp, f), (CONF_MTIME, CONF_MTIME), follow_symlinks=False)
+
+
+def confusable_case(tree, args, thread_counts, repeats):
+    """returns a problem dict or None.  (i) every run equals the first (1-thread) run; (ii) for every file the matches the
+    full plan reports for it equal the plan of a tree that contains only that file (same relative path)."""
+    with common.scratch() as d:
+        _materialize_same_mtime(d, tree)
+        before = common.snapshot(d, exclude=())
+        runs = []
+        for t in thread_counts:
+            for rep in range(repeats):
+                out, err = _plan_once(d, args, t)
+                if err:
+                    return {"what": "command failed", "run": {"threads": t, "repeat": rep}, **err}
+                runs.append(({"threads": t, "repeat": rep}, out))
+        if common.snapshot(d, exclude=()) != before:
+            return {"what": "tree changed by a dry run"}
+    ref_tag, ref = runs[0]
+    for tag, out in runs[1:]:
+        if out != ref:
+            a, b = _first_diff({"matches": ref[0], "paths": ref[1], "stats": ref[2]},
+                               {"matches": out[0], "paths": out[1], "stats": out[2]})
+            return {"what": "two runs on the same tree report different plans", "run_a": ref_tag, "a": a, "run_b": tag, "b": b}
+    by_file = {}
+    for m in ref[0]:
+        by_file.setdefault(m["file"], []).append(m)
+    for rel in sorted(k for k, v in tree.items() if v[0] == "f"):
+        sub = {rel: tree[rel]}
+        par = os.path.dirname(rel)
+        while par:
+            sub[par] = ("d", 0o755)
+            par = os.path.dirname(par)
+        with common.scratch() as d2:
+            _materialize_same_mtime(d2, sub)
+            out, err = _plan_once(d2, args, 1)
+        if err:
+            return {"what": "command failed on the single-file tree", "file": rel, **err}
+        alone = out[0]
+        if alone != by_file.get(rel, []):
+            a, b = _first_diff(by_file.get(rel, []), alone)
+            return {"what": "a file's matches in the full plan differ from the plan of that file alone", "file": rel,
+                    "in_full_plan": a, "alone": b, "full_plan_run": ref_tag}
+    return None
+
+
 def grow_tree(rng, sw, target):
     """gen.gen_tree stops early most of the time: put several of them side by side until `target` entries exist"""
     tree = gen.gen_tree(rng, sw, depth=4, max_entries=target, p_term_name=0.5)
@@ -316,6 +470,43 @@ def run(ctx):
                 break
         ctx.sample({"op": "trace", "request": reqs[0], "model": model[0]})
 
+    # ---- confusable files ------------------------------------------------------------------------
+    import time as _time
+    _t_conf = _time.time()
+    n_conf = 3 if quick else 16
+    cthreads = [1, 4, 16] if quick else [1, 2, 3, 4, 6, 8, 12, 16]
+    conf_cases = []
+    for ci in range(n_conf):
+        S = rng.choice([w for w in gen.VOCAB if len(w) >= 5])
+        R = gen.render(rng.choice(["snake", "camel", "kebab"]), rng.sample([w for w in gen.VOCAB if w != S], 2))
+        tree, groups = confusable_tree(rng, S)
+        kind = ci % 3
+        args = (["plan", S, R, "--dry-run"], ["rename", S, R, "--dry-run"], ["search", S])[kind]
+        conf_cases.append((tree, groups, args))
+
+    def conf_work(c):
+        return confusable_case(c[0], c[2], cthreads, 2 if quick else 3)
+    with concurrent.futures.ThreadPoolExecutor(max_workers=4) as ex:
+        conf_results = list(ex.map(conf_work, conf_cases))
+    for (tree, groups, args), prob in zip(conf_cases, conf_results):
+        ctx.case(("confusable", tuple(args), tuple(sorted(tree))))
+        ctx.count("confusable:" + args[0])
+        ctx.count("confusable_files", sum(len(g["members"]) for g in groups))
+        if prob and prob["what"].startswith("command failed"):
+            ctx.count("confusable_refused")
+            ctx.notes.append(f"confusable {' '.join(args)}: {prob}")
+            continue
+        if prob:
+            case = {"family": "confusable", "tree": common.tree_dump(gen.tree_to_snap(tree)), "args": args,
+                    "threads": cthreads, "groups": groups}
+            ctx.violation("input", case, expected="the same plan on every run, and per file the plan of that file alone "
+                          "(ambiguous hits stand at line starts: no cross-file context applies)", observed=prob,
+                          note="files with equal length / head / tail / name / mtime but different content are told apart")
+            return
+    ctx.cov["confusable_wall_s"] = round(_time.time() - _t_conf, 1)
+    if conf_cases:
+        ctx.sample({"op": "confusable", "args": conf_cases[0][2], "groups": conf_cases[0][1]})
+
     # ---- previews ------------------------------------------------------------------------------
     pthreads = [1, 8] if quick else [1, 3, 16]
     done = set()
@@ -363,6 +554,13 @@ def replay(ctx, path):
     ok, msg = common.cargo_build()
     if not ok:
         ctx.broke("build", "cargo", msg)
+        return
+    if isinstance(case, dict) and case.get("family") == "confusable":
+        tree = common.tree_undump(case["tree"])
+        prob = confusable_case(tree, case["args"], case.get("threads", [1, 2, 8, 16]), 3)
+        print(json.dumps(prob, indent=1, default=str)[:3000])
+        if prob:
+            ctx.violation("input", case, expected=obj.get("expected"), observed=prob)
         return
     if not (isinstance(case, dict) and "args" in case and "tree" in case):
         print(json.dumps(obj, indent=1)[:3000])
